@@ -8,21 +8,16 @@
 
   * `emit_eq_encode` (full statement, a `Prop`): `emit` returns exactly `encode` when every operand
     fits and the "offset too large" diagnostic otherwise (`emit_ok_iff_fits` is its corollary).
-  * STATUS: the two statements are *stated, not proved* (no `_partial` theorem yet).  What is proved
-    are the bit-level bridging lemmas in `Proofs/EncodeBits.lean` — one per instruction form
-    (`enc_add_reg` … `enc_call`: shifts/masks/ORs of `emit` = the bit-field concatenation of the
-    specification, by exhaustive kernel evaluation over the operand fields) and `field9/10/11`
-    (masking a fitting offset = truncating it) — and the corollary
-    `emit_ok_iff_fits_of_emit_eq_encode`.  Missing: assembling them per statement, and the
-    arithmetic bridge "`(t − line) as i16 − 1` fits n bits ⇔ `target − (addr + 1)` fits n bits, and
-    then they are equal".
+  * STATUS: both are **proved** (`emit_eq_encode_holds`, `emit_ok_iff_fits_holds`), for every
+    statement form and every operand value: case split on the statement constructor, the per-form
+    bit-level lemma of `Proofs/EncodeBits.lean` (`enc_add_reg` … `enc_call`, exhaustive kernel
+    evaluation over the operand fields), and for the eight PC-relative forms the arithmetic bridge
+    of `Proofs/EncodeOffs.lean` (`bitOffs_eq_pcField`: "`(t − line) as i16 − 1` fits n bits ⇔
+    `target − (addr + 1)` fits n bits, and then the masked offset is the truncated distance").
 -/
-import Lace.Proofs.EncodeBits
+import Lace.Proofs.EncodeOffs
 namespace Lace.C01
 open Lace.Asm Lace.Spec
-
-/-- address of the statement with 1-based number `line` in a program loaded at `orig` -/
-def addrOf (orig : Word) (line : Nat) : Word := orig + BitVec.ofNat 16 line - 1
 
 /-- A resolved AIR statement read as an ISA instruction (`none`: a label is still unfilled). -/
 def toSpec (orig : Word) : Stmt → Option Instr
@@ -73,5 +68,71 @@ theorem emit_ok_iff_fits_of_emit_eq_encode (h : emit_eq_encode) : emit_ok_iff_fi
   rw [h orig a i hi]
   unfold expected
   cases encode i (addrOf orig a.line) <;> simp
+
+theorem emit_eq_encode_holds : emit_eq_encode := by
+  intro orig a i h
+  obtain ⟨line, stmt, span⟩ := a
+  cases stmt with
+  | add d s x =>
+    cases x with
+    | reg r => cases h; exact congrArg Res.ok (enc_add_reg d s r)
+    | imm5 v => cases h; show Res.ok _ = Res.ok _; rw [ImmOrReg.bits, imm5_low, enc_add_imm]
+  | and d s x =>
+    cases x with
+    | reg r => cases h; exact congrArg Res.ok (enc_and_reg d s r)
+    | imm5 v => cases h; show Res.ok _ = Res.ok _; rw [ImmOrReg.bits, imm5_low, enc_and_imm]
+  | branch f l =>
+    cases l with
+    | unfilled nm => cases h
+    | ref t => cases h; exact emit_pc orig _ line t 9 (by decide) _ (enc_br f)
+  | jump s => cases h; exact congrArg Res.ok (enc_jmp s)
+  | jumpSub l =>
+    cases l with
+    | unfilled nm => cases h
+    | ref t => cases h; exact emit_pc orig _ line t 11 (by decide) _ enc_jsr
+  | jumpSubReg s => cases h; exact congrArg Res.ok (enc_jsrr s)
+  | load d l =>
+    cases l with
+    | unfilled nm => cases h
+    | ref t => cases h; exact emit_pc orig _ line t 9 (by decide) _ (enc_ld d)
+  | loadInd d l =>
+    cases l with
+    | unfilled nm => cases h
+    | ref t => cases h; exact emit_pc orig _ line t 9 (by decide) _ (enc_ldi d)
+  | loadOffs d s off => cases h; show Res.ok _ = Res.ok _; rw [off6_low, enc_ldr]
+  | loadEAddr d l =>
+    cases l with
+    | unfilled nm => cases h
+    | ref t => cases h; exact emit_pc orig _ line t 9 (by decide) _ (enc_lea d)
+  | not d s => cases h; exact congrArg Res.ok (enc_not d s)
+  | ret => cases h; exact congrArg Res.ok ret_word
+  | interrupt => cases h; exact congrArg Res.ok rti_word
+  | store r l =>
+    cases l with
+    | unfilled nm => cases h
+    | ref t => cases h; exact emit_pc orig _ line t 9 (by decide) _ (enc_st r)
+  | storeInd r l =>
+    cases l with
+    | unfilled nm => cases h
+    | ref t => cases h; exact emit_pc orig _ line t 9 (by decide) _ (enc_sti r)
+  | storeOffs r d off => cases h; show Res.ok _ = Res.ok _; rw [off6_low, enc_str]
+  | push r => cases h; exact congrArg Res.ok (enc_push r)
+  | pop r => cases h; exact congrArg Res.ok (enc_pop r)
+  | call l =>
+    cases l with
+    | unfilled nm => cases h
+    | ref t => cases h; exact emit_pc orig _ line t 10 (by decide) _ enc_call
+  | rets => cases h; exact congrArg Res.ok rets_word
+  | rawWord v => cases h; rfl
+  | trap v => cases h; exact congrArg Res.ok (enc_trap v)
+
+theorem emit_ok_iff_fits_holds : emit_ok_iff_fits :=
+  emit_ok_iff_fits_of_emit_eq_encode emit_eq_encode_holds
+
+/-- the hypotheses are satisfiable: `br` three statements back from statement 5 at x3000 -/
+example : (AsmLine.mk 5 (.branch .nzp (.ref 2)) Span.dummy).emit = .ok 0x0FFC#16 ∧
+    toSpec 0x3000#16 (.branch .nzp (.ref 2)) = some (.br 7#3 0x3001#16) ∧
+    encode (.br 7#3 0x3001#16) (addrOf 0x3000#16 5) = some 0x0FFC#16 :=
+  ⟨by rfl, by rfl, by decide⟩
 
 end Lace.C01
